@@ -2,6 +2,7 @@
 # try_seed.sh <patch.diff> <prop> [<prop>...]: apply a seeded change to /repo, run the checks, undo it.
 P=$1; shift
 cd /verif
+export VERIF_EVIDENCE_DIR=/verif/.cache/evidence-seeded   # never overwrite the committed evidence with a run on a changed tree
 git -C /repo apply "$P" || { echo "patch does not apply"; exit 2; }
 for pid in "$@"; do
   /usr/bin/time -f "$pid %es" python3 tools/check.py $pid 2>&1 | tail -4
